@@ -103,6 +103,19 @@ func (o *Once) Do(f func()) {
 // Locker is sync.Locker.
 type Locker = sync.Locker
 
+// Cond is sync.Cond (works with the shim's lockers; not a scheduling point:
+// none of the explored harnesses waits on a condition variable).
+type Cond = sync.Cond
+
+// NewCond is sync.NewCond.
+func NewCond(l Locker) *Cond { return sync.NewCond(l) }
+
+// OnceFunc mirrors sync.OnceFunc on top of the shim's Once.
+func OnceFunc(f func()) func() {
+	var o Once
+	return func() { o.Do(f) }
+}
+
 // Map replaces sync.Map: every operation is a scheduling point (the operations
 // themselves are atomic, so they are not subject to the race check).
 type Map struct{ m sync.Map }
@@ -133,6 +146,21 @@ func (m *Map) LoadAndDelete(key interface{}) (interface{}, bool) {
 
 // Delete is a scheduling point.
 func (m *Map) Delete(key interface{}) { m.pt("Delete"); m.m.Delete(key) }
+
+// Swap is a scheduling point.
+func (m *Map) Swap(key, value interface{}) (interface{}, bool) { m.pt("Swap"); return m.m.Swap(key, value) }
+
+// CompareAndSwap is a scheduling point.
+func (m *Map) CompareAndSwap(key, old, new interface{}) bool {
+	m.pt("CompareAndSwap")
+	return m.m.CompareAndSwap(key, old, new)
+}
+
+// CompareAndDelete is a scheduling point.
+func (m *Map) CompareAndDelete(key, old interface{}) bool {
+	m.pt("CompareAndDelete")
+	return m.m.CompareAndDelete(key, old)
+}
 
 // Range is a scheduling point.
 func (m *Map) Range(f func(key, value interface{}) bool) { m.pt("Range"); m.m.Range(f) }
